@@ -117,6 +117,9 @@ func init() {
 		var pfx string
 		func() {
 			defer func() { recover() }()
+			if cp == 0 {
+				return // no word before the cursor at the beginning of the line
+			}
 			b, _ := probe.SelectBlankWord(c)
 			if b > c {
 				b, c = c, b
